@@ -110,7 +110,7 @@ public:
     }
 
     // ---- the file system model: what each (dir, file) currently designates
-    struct Dir { std::string path; int cert = -1, key = -1, tc = -1; bool is_link = false; };
+    struct Dir { std::string path; int cert = -1, key = -1, tc = -1; bool is_link = false; int last_how = 0; };
     std::vector<Dir> dirs;
 
     void write_atomic(const std::string &path, const std::string &content)
@@ -155,6 +155,7 @@ public:
         w("key.pem", g_s.key[set]);
         w("tc.pem", g_s.tc[set]);
         d.cert = d.key = d.tc = set;
+        d.last_how = how;
     }
 
     Outcome run(const Plan &p, Case &c) override
@@ -286,7 +287,8 @@ public:
             xcm_attr_map_add_bin(m, "tls.cert", g_s.cert[vs].data(), g_s.cert[vs].size());
             xcm_attr_map_add_bin(m, "tls.key", key.data(), key.size());
             xcm_attr_map_add_bin(m, "tls.tc", tc.data(), tc.size());
-            Conn cn;
+            conns.push_back(Conn());
+            Conn &cn = conns.back();
             cn.subj.tag = 2; cn.obs.tag = 3;
             cn.subj.s = call(cn.subj, [&] { return xcm_connect_a(obs_addr[oj].c_str(), m); });
             int e = errno;
@@ -309,7 +311,6 @@ public:
                              which ? " - it shares a cached TLS context with configuration X, whose texts concatenate to the same bytes" : "");
             }
             cn.cert_set = vs; cn.tc_set = -1; cn.alive = true;
-            conns.push_back(cn);
         }
         return Outcome::pass();
     }
@@ -344,11 +345,18 @@ public:
         if (how_tc == 0) { want_tc = envd.tc; desc += "tc from the environment directory"; }
         else if (how_tc == 1) { xcm_attr_map_add_str(m, "tls.tc_file", (ad.path + "/tc.pem").c_str()); want_tc = ad.tc; desc += "tls.tc_file in d" + std::to_string(attr_dir); }
         else { int ts = y % NSETS; xcm_attr_map_add_bin(m, "tls.tc", g_s.tc[ts].data(), g_s.tc[ts].size()); want_tc = ts; desc += "tls.tc by value (set-" + std::to_string(ts) + ")"; }
+        static const char *HOWN[] = {"rename-over (fresh inodes)", "in-place rewrite", "in-place rewrite preserving size and mtime"};
+        desc += "; files last changed by:";
+        if (how_cert == 0 || how_tc == 0) desc += std::string(" env dir ") + HOWN[envd.last_how];
+        if (how_cert == 1 || how_tc == 1) desc += std::string(" attribute dir ") + HOWN[ad.last_how];
         // which observer do we talk to?  One whose issuer the designated trust store contains, or not
         int oj = (y >> 8) % 2;
         bool trusted = want_tc % 2 == oj;
         drain_observers();
-        Conn cn;
+        // registered at once, so that every exit path closes it (a leaked socket would keep its
+        // cached TLS context alive into the next case)
+        conns.push_back(Conn());
+        Conn &cn = conns.back();
         cn.subj.tag = 2;
         cn.obs.tag = 3;
         std::string addr = obs_addr[oj];
@@ -388,7 +396,6 @@ public:
         cn.tc_set = want_tc;
         cn.alive = true;
         c.cls("trust-probe:accepted");
-        conns.push_back(cn);
         return Outcome::pass();
     }
 
